@@ -133,6 +133,7 @@ func checkC12(c *Ctx) {
 	c.checkCacheKeyAgreement()
 	c.checkTokenDecodeOffsets()
 	c.checkSerialNotNarrowed()
+	c.checkTokenMacCoversFields()
 }
 
 func (c *Ctx) checkTokenAuth() {
